@@ -333,8 +333,15 @@ def packages(chk, work, count, stats, cli_every=4, keep=None):
     M.H.ready()
     from lib import cli
     found = []
+    # a VALID package to be used as a member of others (members are files, not packages: nothing may be reported for it)
+    inner_cat = G.gen_catalog(rng, family='latin1', po_features=False, n=2)
+    inner = M.build_deb(work, 'inner', {'usr/share/doc/inner/de.po': G.render_po(inner_cat, 'UTF-8', G.Style(rng, 0)),
+                                        'usr/share/locale/de/LC_MESSAGES/inner.mo': G.render_mo(inner_cat, 'UTF-8', G.gen_layout(rng, simple=True))})
+    inner_bytes = open(inner, 'rb').read()
     for idx in range(count):
         members, symlinks, dirs = gen_package(rng, idx)
+        if idx % 2 == 0:
+            members[rng.choice(['usr/share/gizmo/nested.deb', 'nested.deb', 'usr/share/doc/gizmo/a b.deb'])] = inner_bytes
         found += check_package(work, f'pkg{idx}', members, symlinks, dirs, stats, sequence=idx % 3 == 0, inject=idx % 4 == 1, via_cli=idx % cli_every == 0, keep=keep)
         if found:
             return found
